@@ -71,9 +71,11 @@ pub enum Obs {
     Invalid,
     Refused,
     AcceptThenClose,
+    /// the complete state, after which the peer keeps the connection open
+    ValidLinger,
 }
 
-pub const OBS: [Obs; 5] = [Obs::Valid, Obs::Truncated, Obs::Invalid, Obs::Refused, Obs::AcceptThenClose];
+pub const OBS: [Obs; 6] = [Obs::Valid, Obs::Truncated, Obs::Invalid, Obs::Refused, Obs::AcceptThenClose, Obs::ValidLinger];
 
 fn obs_mode(o: Obs, valid: &[u8]) -> ObsMode {
     match o {
@@ -82,6 +84,7 @@ fn obs_mode(o: Obs, valid: &[u8]) -> ObsMode {
         Obs::Invalid => ObsMode::Invalid,
         Obs::Refused => ObsMode::Refuse,
         Obs::AcceptThenClose => ObsMode::AcceptThenClose,
+        Obs::ValidLinger => ObsMode::ValidLinger(valid.to_vec()),
     }
 }
 
@@ -259,7 +262,7 @@ pub struct Seq {
 }
 
 pub fn run(rep: &mut Report, tier: &str, seed: u64, shard: (u32, u32), replay: Option<&str>) {
-    rep.rule = "sequences of client behaviours (well-formed GET, close after 0 / partial / header-less bytes, 2048 and 4096 bytes without terminator, non-GET requests (POST, invalid-UTF-8 / long multi-byte / 900-octet ASCII method tokens, empty request line), split writes (7-octet pieces, one octet per segment, and two segments cut 1/2/3 octets into the CRLFCRLF terminator; each must be answered while the client waits), TCP reset before and after the request, close before reading the response) x observation-socket behaviours (valid JSON, truncated, invalid, refused, accept-then-close), each followed by a well-formed probe; every single behaviour x observation behaviour is enumerated, longer sequences (<= 4) are seeded samples (all pairs in thorough); the exporter is restarted after each wedging sequence; distinct = distinct sequences".into();
+    rep.rule = "sequences of client behaviours (well-formed GET, close after 0 / partial / header-less bytes, 2048 and 4096 bytes without terminator, non-GET requests (POST, invalid-UTF-8 / long multi-byte / 900-octet ASCII method tokens, empty request line), split writes (7-octet pieces, one octet per segment, and two segments cut 1/2/3 octets into the CRLFCRLF terminator; each must be answered while the client waits), TCP reset before and after the request, close before reading the response) x observation-socket behaviours (valid JSON, truncated, invalid, refused, accept-then-close, valid JSON after which the peer keeps the connection open), each followed by a well-formed probe; every single behaviour x observation behaviour is enumerated, longer sequences (<= 4) are seeded samples (all pairs in thorough); the exporter is restarted after each wedging sequence; distinct = distinct sequences".into();
     rep.require(&["sequence_run", "probe_ok", "probe_ok_error_status", "well_formed_request_answer_checked"]);
     let valid_json: Vec<u8> = {
         // a valid state: take it from a live default instance
@@ -297,14 +300,14 @@ pub fn run(rep: &mut Report, tier: &str, seed: u64, shard: (u32, u32), replay: O
         if tier == "thorough" {
             for a in CLIENTS {
                 for b in CLIENTS {
-                    seqs.push(Seq { steps: vec![(a, OBS[rng.gen_range(0..5)]), (b, OBS[rng.gen_range(0..5)])], probe_obs: if rng.gen_bool(0.7) { Obs::Valid } else { OBS[rng.gen_range(0..5)] } });
+                    seqs.push(Seq { steps: vec![(a, OBS[rng.gen_range(0..OBS.len())]), (b, OBS[rng.gen_range(0..OBS.len())])], probe_obs: if rng.gen_bool(0.7) { Obs::Valid } else { OBS[rng.gen_range(0..OBS.len())] } });
                 }
             }
         }
         let n_random = if tier == "thorough" { 600 } else { 60 };
         for _ in 0..n_random {
             let len = rng.gen_range(2..=4);
-            seqs.push(Seq { steps: (0..len).map(|_| (CLIENTS[rng.gen_range(0..CLIENTS.len())], OBS[rng.gen_range(0..5)])).collect(), probe_obs: if rng.gen_bool(0.6) { Obs::Valid } else { OBS[rng.gen_range(0..5)] } });
+            seqs.push(Seq { steps: (0..len).map(|_| (CLIENTS[rng.gen_range(0..CLIENTS.len())], OBS[rng.gen_range(0..OBS.len())])).collect(), probe_obs: if rng.gen_bool(0.6) { Obs::Valid } else { OBS[rng.gen_range(0..OBS.len())] } });
         }
     }
     let mut ctx = match start_ctx(&format!("c20-{}", shard.0)) {
@@ -354,7 +357,7 @@ pub fn run(rep: &mut Report, tier: &str, seed: u64, shard: (u32, u32), replay: O
             }
         }
         ctx.obs.set(obs_mode(seq.probe_obs, &valid_json));
-        let expect_data = seq.probe_obs == Obs::Valid;
+        let expect_data = seq.probe_obs == Obs::Valid || seq.probe_obs == Obs::ValidLinger;
         let res = probe(&mut ctx.exp, expect_data);
         rep.ev("sequence_run");
         rep.evaluations += 1;
